@@ -10,7 +10,7 @@ RULE = ("every schedule (preemption-bounded, plus x86-TSO store delays) of push/
 ASSUMPTIONS = ["x86-TSO", "specification RCU flavor faithfully states C01's guarantee", "<=3 threads, <=4 nodes"]
 DEADLINE = {"quick": 120, "thorough": 1500}
 # (kind, sync) combinations that the API documents
-COMBOS = [(0, 0), (0, 1), (1, 0), (1, 1), (1, 2), (2, 2)]
+COMBOS = [(0, 0), (0, 1), (0, 2), (1, 0), (1, 1), (1, 2), (2, 2)]
 
 
 def jobs(tier):
